@@ -175,7 +175,7 @@ func runDual(a, b string, ci int, second, lazy bool, prefix []int, oracles ...fl
 				}
 			}
 			if !mine && f1.health == "" {
-				f1.health = fmt.Sprintf("a packet that carries the Call-ID of neither message in flight was emitted to %s: %q", p.To, clip(string(p.Data), 300))
+				f1.health = fmt.Sprintf("a packet that carries the Call-ID of neither message in flight was emitted to %s: %q", p.To, short(p.Data))
 			}
 		}
 		for _, r := range pend {
